@@ -218,6 +218,8 @@ class ShapelyBoundary(BoundaryDomain):
     def sample_random_uniform(
         self, n=None, d=None, params=Points.empty(), device="cpu"
     ):
+        if d:  # the density refers to the length of the boundary, not to the area
+            n, d = self.compute_n_from_density(d, params), None
         n = self.domain._compute_number_of_points(n, d, params)
         line_points = torch.rand(n, device=device) * self.domain.polygon.boundary.length
         return self._transform_points_to_boundary(
@@ -225,6 +227,8 @@ class ShapelyBoundary(BoundaryDomain):
         )
 
     def sample_grid(self, n=None, d=None, params=Points.empty(), device="cpu"):
+        if d:  # the density refers to the length of the boundary, not to the area
+            n, d = self.compute_n_from_density(d, params), None
         n = self.domain._compute_number_of_points(n, d, params)
         line_points = torch.linspace(
             0, self.domain.polygon.boundary.length, n + 1, device=device
